@@ -212,8 +212,8 @@ class InitialMesh:
                     if va[n_axis] - eps * abs(va[n_axis]) <= v0[n_axis] <= v1[
                             n_axis] <= vb[n_axis] + eps * abs(vb[n_axis]):
                         # If this elements edge coincides with v0, v1, return!
-                        if isclose(va[n_axis], v0[n_axis]) and isclose(
-                                v1[n_axis], vb[n_axis]):
+                        if isclose(va[n_axis, 0], v0[n_axis, 0]) and isclose(
+                                v1[n_axis, 0], vb[n_axis, 0]):
                             return elem
                         parent = elem
 
